@@ -1150,6 +1150,28 @@ class Eval:
         cond = None
         if len(ins) == 2:
             cond = self.diamond_cond(b, ins)
+        if cond is None and 2 <= len(ins) <= 6:
+            # short-circuit conditions (`a && b`, `a || b`) and if / else-if chains: each predecessor is reached under a
+            # path condition built from the bool switches between the join's dominator and it -> gated phi (nested ite)
+            pcs = self.gated_conds(b, ins)
+            if pcs is not None:
+                env = dict(ins[-1][1][0])
+                mem = dict(ins[-1][1][1])
+                for idx in range(len(ins) - 2, -1, -1):
+                    e2, m2 = ins[idx][1][0], ins[idx][1][1]
+                    for k in set(env) | set(e2):
+                        if k in env and k in e2:
+                            env[k] = self.join_val(e2[k], env[k], (b, k), pcs[idx])
+                        else:
+                            env.pop(k, None)
+                    for k in set(mem) | set(m2):
+                        va, vb = m2.get(k), mem.get(k)
+                        if va is None or vb is None:
+                            orig = ("load", k, self.epoch_of(k))
+                            va = va if va is not None else orig
+                            vb = vb if vb is not None else orig
+                        mem[k] = self.join_val(va, vb, (b, k), pcs[idx])
+                return env, mem
         env = dict(ins[0][1][0])
         mem = dict(ins[0][1][1])
         swap = False
@@ -1175,6 +1197,77 @@ class Eval:
                 mem[k] = self.join_val(a, bb_, (b, k), cterm)
         return env, mem
 
+    def gated_conds(self, b, ins):
+        """path condition (a bool term) of every predecessor of join block b, from b's immediate dominator; None when the
+        region is not a small acyclic tree of bool switches whose condition terms are known"""
+        fn = self.fn
+        d = fn.dominators().get(b)
+        if d is None:
+            return None
+        succ = fn.cfg()[0]
+        preds_ = [p for p, _ in ins]
+        paths = {p: [] for p in preds_}
+        budget = [0]
+
+        def lit(blk, nxt):
+            t = fn.term(blk)
+            if t[0] == "sw":
+                if t[4] != "bool":
+                    return None
+                c = self.cond_at.get(blk)
+                if c is None:
+                    return None
+                false_bb = [bb for v, bb in t[2] if v == 0]
+                if not false_bb or false_bb[0] == t[3]:
+                    return None
+                if nxt == t[3]:
+                    return (c, True)
+                if nxt == false_bb[0]:
+                    return (c, False)
+                return None
+            return ()
+
+        def walk_(blk, conds, seen):
+            budget[0] += 1
+            if budget[0] > 400:
+                raise OverflowError
+            for nxt in (succ.get(blk, ()) if isinstance(succ, dict) else succ[blk]):
+                if nxt in fn.ret_reaching() or True:
+                    l = lit(blk, nxt)
+                    if l is None:
+                        raise OverflowError
+                    c2 = conds + ([l] if l else [])
+                    if nxt == b:
+                        if blk in paths:
+                            paths[blk].append(c2)
+                        continue
+                    if nxt in seen or not fn.dominates(d, nxt):
+                        if fn.diverges(nxt):
+                            continue
+                        raise OverflowError
+                    if fn.diverges(nxt):
+                        continue
+                    walk_(nxt, c2, seen | {nxt})
+        try:
+            walk_(d, [], {d})
+        except (OverflowError, RecursionError):
+            return None
+        out = []
+        for p in preds_:
+            if not paths[p]:
+                return None
+            disj = None
+            for conj in paths[p]:
+                term = None
+                for c, pol in conj:
+                    x = c if pol else ("un", "Not", c, "bool")
+                    term = x if term is None else mk_bin("BitAnd", term, x, "bool")
+                if term is None:
+                    term = C(1, "bool")
+                disj = term if disj is None else mk_bin("BitOr", disj, term, "bool")
+            out.append(disj)
+        return out
+
     def diamond_cond(self, b, ins):
         """If the two incoming paths are the true/false arms of one bool switch, return (cond term, swapped)."""
         fn = self.fn
@@ -1195,8 +1288,11 @@ class Eval:
         def side(p):
             if p == d:
                 return None
-            on_t = fn.dominates(true_bb, p) if true_bb != b else False
-            on_f = fn.dominates(false_bb, p) if false_bb != b else False
+            prd = fn.cfg()[1]
+            one_t = len(prd.get(true_bb, ()) if isinstance(prd, dict) else prd[true_bb]) == 1
+            one_f = len(prd.get(false_bb, ()) if isinstance(prd, dict) else prd[false_bb]) == 1
+            on_t = (fn.dominates(true_bb, p) and one_t) if true_bb != b else False
+            on_f = (fn.dominates(false_bb, p) and one_f) if false_bb != b else False
             if on_t and not on_f:
                 return True
             if on_f and not on_t:
